@@ -1,27 +1,17 @@
 package main
 
 import (
-	"bytes"
 	"fmt"
-	"time"
 
-	"github.com/hedzr/logg/slog"
+	errorsv3 "gopkg.in/hedzr/errors.v3"
 )
 
 func main() {
-	slog.SetFlags((slog.LstdFlags | slog.LnoInterrupt) &^ slog.Lcaller)
-	for _, f := range []string{"json", "logfmt", "color"} {
-		var b bytes.Buffer
-		l := slog.New("o").SetWriter(&b).SetErrorWriter(&b).SetLevel(slog.AlwaysLevel)
-		switch f {
-		case "json":
-			l.SetJSONMode(true)
-		case "logfmt":
-			l.SetColorMode(false)
-		default:
-			l.SetColorMode(true)
-		}
-		l.Info("m", "t", time.Date(12345, 6, 7, 8, 9, 10, 11, time.UTC), "neg", time.Date(-50, 6, 7, 8, 9, 10, 11, time.UTC), "lv", slog.Level(4242), "lv2", slog.WarnLevel)
-		fmt.Printf("%s\n%s", f, b.String())
+	var e error = errorsv3.New("x").WithSkip(100).(error)
+	if f, ok := e.(*errorsv3.WithStackInfo); ok {
+		st := f.StackTrace()
+		fmt.Println("stack nil?", st == nil, "len", len(st))
+	} else {
+		fmt.Printf("%T\n", e)
 	}
 }
